@@ -19,8 +19,9 @@ N     == Len(Trace)
 VARIABLES l,      \* next trace line
           store,  \* Key -> projected object, as reconstructed from the trace
           cfg,    \* configuration of the current scenario (Reset event)
-          ctx     \* actor -> context of its current sync
-vars == <<l, store, cfg, ctx>>
+          expect, \* property-level expectations TLC printed with the scenario (Reset event)
+          ctx     \* actor -> context of its current (or last) sync
+vars == <<l, store, cfg, expect, ctx>>
 
 Key(e) == <<e.kind, e.ns, e.name>>
 ObjKey(o) == <<o.kind, o.ns, o.name>>
@@ -34,7 +35,12 @@ NoCtx == [active |-> FALSE, sid |-> 0, key |-> "", parent |-> AbsentObj, sel |->
           hookParent |-> AbsentObj, finalizing |-> FALSE, hookCode |-> 0, gateBad |-> FALSE,
           childWrites |-> 0, childWritesAfterHook |-> 0, revWritesAfterChild |-> 0, revFailed |-> FALSE,
           childAfterRevFail |-> 0, finPut |-> "none", faults |-> 0, hookFail |-> FALSE,
-          statusPuts |-> 0, lastParentGet |-> AbsentObj, conflictSeen |-> FALSE, failedReqs |-> <<>>]
+          statusPuts |-> 0, lastParentGet |-> AbsentObj, conflictSeen |-> FALSE, failedReqs |-> <<>>,
+          fin |-> "", cur |-> AbsentObj, adopted |-> {}, released |-> {}, issued |-> {}, allFinalized |-> TRUE,
+          needFreshGet |-> FALSE, wrote |-> FALSE, childReqs |-> 0, atFix |-> FALSE, fresh |-> FALSE,
+          prevQuiet |-> FALSE, hookOK |-> FALSE, nonBenign |-> FALSE, hook429 |-> FALSE, childFault |-> FALSE,
+          statusConflict |-> FALSE, parentGone |-> FALSE, claimFail |-> FALSE, revWrites |-> 0,
+          hookReq |-> [children |-> <<>>], result |-> "", parentChanged |-> FALSE]
 
 E      == Trace[l]
 HasE   == l <= N
@@ -193,10 +199,315 @@ C04_GeneratedLabel ==
      \/ Report("C04", "C04_GeneratedLabel", <<Key(E), E.post.labels>>)
 
 \* =======================================================================================
-\* C17(a) -- shared caches stay read-only
+\* helpers over the per-sync context
+\* =======================================================================================
+\* finalizer-managing configuration
+FinOn == "finalize" \in DOMAIN cfg /\ cfg.finalize
+HasFin(o, c) == c.fin # "" /\ c.fin \in Range(o.fins)
+GCFin(o) == \E f \in Range(o.fins) : f \in {"foregroundDeletion", "orphan"}
+\* the parent version the sync works from (cached, or as returned by the finalizer update)
+Cur(c) == IF c.cur.live THEN c.cur ELSE c.parent
+ParentKeyOf(c) == ObjKey(c.parent)
+IsParentReq(e, c) == e.kind = c.parent.kind /\ e.name = c.parent.name /\ e.ns = c.parent.ns
+\* controller-level parent selector (CompositeController.spec.parentResource.labelSelector /
+\* DecoratorController resource rule: label AND annotation selector)
+CtlSel == IF "parentSel" \in DOMAIN cfg THEN [ml |-> IF "matchLabels" \in DOMAIN cfg.parentSel THEN cfg.parentSel.matchLabels ELSE <<>>, me |-> <<>>]
+          ELSE IF "dselLabels" \in DOMAIN cfg THEN [ml |-> IF "matchLabels" \in DOMAIN cfg.dselLabels THEN cfg.dselLabels.matchLabels ELSE <<>>, me |-> <<>>]
+          ELSE EmptySel
+CtlAnnSel == IF "dselAnn" \in DOMAIN cfg /\ "matchAnnotations" \in DOMAIN cfg.dselAnn
+             THEN [ml |-> cfg.dselAnn.matchAnnotations, me |-> <<>>] ELSE EmptySel
+CtlMatches(o) == Matches(CtlSel, o.labels) /\ Matches(CtlAnnSel, o.ann)
+\* desired children of the (single) hook answer of this sync, by key; namespace defaults to the parent's
+DesKey(c, d) == <<d.kind, IF d.ns = "" /\ d.kind \notin {"CThing"} THEN c.parent.ns ELSE d.ns, d.name>>
+DesiredKeys(c) == { DesKey(c, c.resp.children[i]) : i \in DOMAIN c.resp.children }
+DesiredOf(c, k) == c.resp.children[CHOOSE i \in DOMAIN c.resp.children : DesKey(c, c.resp.children[i]) = k]
+\* children the sync treats as owned: observed (cache) owned+matching, plus adopted, minus released
+OwnedObs(c) == { k \in DOMAIN c.obs :
+                   /\ c.obs[k].kind \in ChildKinds
+                   /\ \/ (c.obs[k].ctrl = c.parent.uid /\ HasMarker(c.obs[k], c) /\ (IsDecorator \/ (c.selOK /\ Matches(c.sel, c.obs[k].labels))))
+                      \/ k \in c.adopted
+                   /\ k \notin c.released
+                   /\ (c.parent.ns # "" => c.obs[k].ns = c.parent.ns) }
+\* the sync got as far as reconciling children: one hook answer, accepted
+Reached(c) == c.nHooks = 1 /\ c.hookOK /\ ~c.gateBad
+\* desired state already reflected by the observed object (3-way merge would be a no-op):
+\* last-applied equals desired, and every desired field/label is present with that value
+LAOf(d) == [p \in { q \in DOMAIN d.fields : TRUE } |-> d.fields[p]]
+SameAsDesired(o, d) ==
+  /\ SubFn(d.fields, o.fields) /\ SubFn(d.labels, o.labels) /\ SubFn(d.ann, o.ann)
+  /\ o.hasLA
+  /\ \A p \in DOMAIN d.fields : p \in DOMAIN o.la /\ o.la[p] = d.fields[p]
+  /\ \A p \in DOMAIN o.la : \/ p \in DOMAIN d.fields
+                            \/ p \in {"apiVersion", "kind", "metadata.name", "metadata.namespace"}
+                            \/ \E lk \in DOMAIN d.labels : p = "metadata.labels." \o lk
+                            \/ \E ak \in DOMAIN d.ann : p = "metadata.annotations." \o ak
+  /\ \A lk \in DOMAIN d.labels : ("metadata.labels." \o lk) \in DOMAIN o.la
+  /\ (d.ns = "" <=> "metadata.namespace" \notin DOMAIN o.la)
+DiffersInOwned(o, d) == ~SubFn(d.fields, o.fields) \/ ~SubFn(d.labels, o.labels)
+
+\* =======================================================================================
+\* C01 -- convergence, then quiescence
+\* =======================================================================================
+HasExpect(f) == f \in DOMAIN expect
+FixKeys == { <<expect.fix[i].kind, expect.fix[i].ns, expect.fix[i].name>> : i \in DOMAIN expect.fix }
+FixOf(k) == expect.fix[CHOOSE i \in DOMAIN expect.fix : <<expect.fix[i].kind, expect.fix[i].ns, expect.fix[i].name>> = k]
+OwnedNow(st) == { k \in DOMAIN st : st[k].live /\ st[k].kind \in ChildKinds /\ st[k].ctrl = expect.parentUid
+                                     /\ (expect.marker = "" \/ (MarkerKey \in DOMAIN st[k].ann /\ st[k].ann[MarkerKey] = expect.marker)) }
+AtFix(st) == /\ OwnedNow(st) = FixKeys
+             /\ expect.updatable => \A k \in FixKeys : SubFn(FixOf(k).fields, st[k].fields) /\ SubFn(FixOf(k).labels, st[k].labels)
+C01_QuietAtFix ==
+  (ReqE /\ HasExpect("fix") /\ C.atFix /\ C.fresh /\ IsChildReq(E) /\ E.verb \in WriteVerbs)
+  => Report("C01", "C01_Quiet", <<"child write at the fixpoint", E.verb, Key(E), E.code>>)
+C01_QuietAfterQuiet ==
+  (ReqE /\ HasExpect("fix") /\ C.prevQuiet /\ C.fresh /\ E.verb # "get" /\ (E.post # E.pre \/ IsChildReq(E)))
+  => Report("C01", "C01_Quiet", <<"write after a sync that changed nothing (hot loop)", E.verb, Key(E), E.code>>)
+C01_Bounded ==
+  (IsEv("End") /\ HasExpect("fix"))
+  => \/ (AtFix(store) /\ \A a \in DOMAIN ctx : ~ctx[a].wrote /\ ctx[a].result = "ok")
+     \/ Report("C01", "C01_Bounded", <<"not converged after the bound", "owned", OwnedNow(store), "fix", FixKeys,
+                                        "lastSyncWrote", [a \in DOMAIN ctx |-> ctx[a].wrote], "result", [a \in DOMAIN ctx |-> ctx[a].result]>>)
+
+\* =======================================================================================
+\* C03 -- the hook sees exactly the owned children, in the documented shape
+\* =======================================================================================
+ApiVersionOfKind(k) == IF k = "ConfigMap" THEN "v1" ELSE "verif.example/v1"
+GroupKey(k) == k \o "." \o ApiVersionOfKind(k)
+InnerKey(c, o) == IF c.parent.ns = "" /\ o.ns # "" THEN o.ns \o "/" \o o.name ELSE o.name
+ExpectedView(c) == [g \in { GroupKey(k) : k \in ChildKinds } |->
+                      { <<InnerKey(c, c.obs[k]), c.obs[k].uid>> : k \in { x \in OwnedObs(c) : GroupKey(c.obs[x].kind) = g } }]
+SeenView(req) == [g \in DOMAIN req.children |-> { <<n, req.children[g][n].uid>> : n \in DOMAIN req.children[g] }]
+HookE == IsEv("Hook") /\ InSync(E) /\ E.hook \in {"sync", "finalize"}
+C03_ViewExact ==
+  HookE => \/ SeenView(E.req) = ExpectedView(C)
+           \/ Report("C03", "C03_ViewExact", <<"sent", SeenView(E.req), "expected", ExpectedView(C)>>)
+C03_NsDefault ==
+  (ReqE /\ IsChildReq(E) /\ E.verb \in {"create", "apply"} /\ Reached(C) /\ E.kind # "CThing")
+  => \/ ~(\E i \in DOMAIN C.resp.children : C.resp.children[i].kind = E.kind /\ C.resp.children[i].name = E.name /\ C.resp.children[i].ns = "")
+     \/ C.parent.ns = ""
+     \/ E.nsReq = C.parent.ns
+     \/ Report("C03", "C03_NsDefault", <<Key(E), E.nsReq, C.parent.ns>>)
+
+\* =======================================================================================
+\* C06 -- each child type is changed only by the method its strategy allows
+\* =======================================================================================
+\* requests on an owned, observed child after the (single, accepted) hook answer, dynamic apply
+C06Scope == ReqE /\ IsChildReq(E) /\ Reached(C) /\ ~("apply" \in DOMAIN cfg /\ cfg.apply = "ssa")
+            /\ E.verb \in {"update", "delete", "jsonpatch", "apply", "patch"} /\ Key(E) \in OwnedObs(C)
+            /\ ~IsAdoption(E, C) /\ ~IsRelease(E, C)
+C06_Method ==
+  (C06Scope /\ Key(E) \in DesiredKeys(C))
+  => LET m == MethodOf(E.kind) IN
+     \/ (m \in {"Recreate", "RollingRecreate"} /\ E.verb = "delete")
+     \/ (m \in {"InPlace", "RollingInPlace"} /\ E.verb = "update")
+     \/ Report("C06", "C06_Method", <<"method", m, "request", E.verb, Key(E)>>)
+C06_DeletingNoWrite ==
+  (C06Scope /\ C.obs[Key(E)].deleting) => Report("C06", "C06_DeletingNoWrite", <<E.verb, Key(E)>>)
+C06_EqualNoWrite ==
+  (C06Scope /\ Key(E) \in DesiredKeys(C) /\ ~AnyRolling /\ SameAsDesired(C.obs[Key(E)], DesiredOf(C, Key(E))))
+  => Report("C06", "C06_EqualNoWrite", <<E.verb, Key(E)>>)
+C06_UndesiredDeletedBackground ==
+  (C06Scope /\ E.verb = "delete") => (E.opt.propagation = "Background" \/ Report("C06", "C06_UndesiredDeletedBackground", <<Key(E), E.opt.propagation>>))
+\* completeness at the end of a sync that reconciled children without any failure:
+\* every action the strategy prescribes was actually requested
+Issued(c, verb, k) == <<verb, k>> \in c.issued
+ManageRan(c) == Reached(c) /\ (~Cur(c).deleting \/ (FinOn /\ HasFin(Cur(c), c) /\ ~GCFin(Cur(c))))
+C06_Complete ==
+  (IsEv("SyncEnd") /\ E.a \in DOMAIN ctx /\ ctx[E.a].active /\ ManageRan(ctx[E.a]) /\ ~AnyRolling /\ ~("apply" \in DOMAIN cfg /\ cfg.apply = "ssa")
+     /\ ctx[E.a].failedReqs = <<>> /\ E.result = "ok")
+  => LET c == ctx[E.a] IN
+     /\ \A k \in OwnedObs(c) : (k \notin DesiredKeys(c) /\ ~c.obs[k].deleting)
+            => (Issued(c, "delete", k) \/ Report("C06", "C06_Complete", <<"undesired child not deleted", k>>))
+     /\ \A k \in DesiredKeys(c) : (k \notin OwnedObs(c))
+            => (Issued(c, "create", k) \/ Report("C06", "C06_Complete", <<"missing child not created", k>>))
+     /\ \A k \in DesiredKeys(c) : (k \in OwnedObs(c) /\ ~c.obs[k].deleting /\ DiffersInOwned(c.obs[k], DesiredOf(c, k)))
+            => LET m == MethodOf(k[1]) IN
+               \/ m \in {"-", "OnDelete"} \/ m \notin {"Recreate", "InPlace", "RollingRecreate", "RollingInPlace"}
+               \/ (m \in {"Recreate", "RollingRecreate"} /\ Issued(c, "delete", k))
+               \/ (m \in {"InPlace", "RollingInPlace"} /\ Issued(c, "update", k))
+               \/ Report("C06", "C06_Complete", <<"differing child not acted on", m, k>>)
+
+\* =======================================================================================
+\* C10 -- finalizer: added first, honoured on deletion, removed only when finalized
+\* =======================================================================================
+C10_FinBeforeChild ==
+  (ReqE /\ IsChildReq(E) /\ FinOn /\ E.verb \in {"create", "apply"} /\ Accepted(E) /\ ~E.pre.live)
+  => (HasFin(Cur(C), C) \/ Report("C10", "C10_FinBeforeChild", <<Key(E), Cur(C).fins>>))
+C10_NoFinOnDying ==
+  (ReqE /\ IsParentReq(E, C) /\ E.verb = "update" /\ Accepted(E) /\ E.pre.deleting /\ ~HasFin(E.pre, C) /\ HasFin(E.post, C))
+  => Report("C10", "C10_NoFinOnDying", <<Key(E)>>)
+C10_HookChoice ==
+  HookE => LET p == E.req.parent
+               fz == FinOn /\ (p.deleting \/ ~CtlMatches(p)) IN
+           \/ (fz /\ E.hook = "finalize" /\ E.req.finalizing)
+           \/ (~fz /\ E.hook = "sync" /\ ~E.req.finalizing)
+           \/ Report("C10", "C10_HookChoice", <<"hook", E.hook, "finalizing", E.req.finalizing, "expectedFinalize", fz>>)
+C10_RemoveOnlyFinalized ==
+  (ReqE /\ IsParentReq(E, C) /\ E.verb = "update" /\ Accepted(E) /\ HasFin(E.pre, C) /\ ~HasFin(E.post, C))
+  => \/ ~FinOn
+     \/ (C.nHooks > 0 /\ C.hookOK /\ C.allFinalized)
+     \/ Report("C10", "C10_RemoveOnlyFinalized", <<Key(E), "hooks", C.nHooks, "allFinalized", C.allFinalized>>)
+\* without a finalize hook a leftover finalizer is removed
+C10_LeftoverRemoved ==
+  (IsEv("SyncEnd") /\ E.a \in DOMAIN ctx /\ ctx[E.a].active /\ ~FinOn /\ HasFin(ctx[E.a].parent, ctx[E.a])
+     /\ ctx[E.a].failedReqs = <<>> /\ E.result = "ok")
+  => LET c == ctx[E.a] IN
+     \/ ~Lookup(store, ParentKeyOf(c)).live \/ Lookup(store, ParentKeyOf(c)).uid # c.parent.uid
+     \/ ~HasFin(Lookup(store, ParentKeyOf(c)), c)
+     \/ Report("C10", "C10_LeftoverRemoved", <<ParentKeyOf(c)>>)
+C10_DyingNoTouch ==
+  (ReqE /\ IsChildReq(E) /\ E.verb \in WriteVerbs /\ Cur(C).deleting /\ (~FinOn \/ ~HasFin(Cur(C), C) \/ GCFin(Cur(C))))
+  => Report("C10", "C10_DyingNoTouch", <<E.verb, Key(E), "fins", Cur(C).fins>>)
+\* while finalizing with finalized:false the children are still reconciled to the answer
+C10_StillReconciled ==
+  (IsEv("SyncEnd") /\ E.a \in DOMAIN ctx /\ ctx[E.a].active /\ ctx[E.a].finalizing /\ ManageRan(ctx[E.a]) /\ ~AnyRolling
+     /\ ctx[E.a].failedReqs = <<>> /\ E.result = "ok")
+  => LET c == ctx[E.a] IN
+     /\ \A k \in OwnedObs(c) : (k \notin DesiredKeys(c) /\ ~c.obs[k].deleting)
+            => (Issued(c, "delete", k) \/ Report("C10", "C10_StillReconciled", <<"not deleted while finalizing", k>>))
+     /\ \A k \in DesiredKeys(c) : (k \notin OwnedObs(c))
+            => (Issued(c, "create", k) \/ Issued(c, "apply", k) \/ Report("C10", "C10_StillReconciled", <<"not created while finalizing", k>>))
+
+\* =======================================================================================
+\* C11 -- parent status = hook status + observedGeneration, nothing else
+\* =======================================================================================
+IsComposite == ~IsDecorator
+ExpStatus(c) == ("observedGeneration" :> ToString(c.hookParent.gen)) @@ c.resp.status
+\* rolling syncs add the Updated condition; it is excluded from the comparison there
+StatusEq(a, b) == IF AnyRolling
+                  THEN \A p \in (DOMAIN a \cup DOMAIN b) :
+                          (\E n \in 0..3 : \E f \in {"type", "status", "reason", "message"} : p = "conditions." \o ToString(n) \o "." \o f)
+                          \/ (p \in DOMAIN a /\ p \in DOMAIN b /\ a[p] = b[p])
+                  ELSE a = b
+C11_StatusBody ==
+  (ReqE /\ IsComposite /\ IsParentReq(E, C) /\ E.verb \in {"updateStatus", "update"} /\ Accepted(E) /\ E.post.live /\ E.post.status # E.pre.status)
+  => \/ (Reached(C) /\ StatusEq(E.post.status, ExpStatus(C)))
+     \/ Report("C11", "C11_StatusBody", <<"written", E.post.status, "expected", IF Reached(C) THEN ExpStatus(C) ELSE <<>>>>)
+C11_ViaSubresource ==
+  (ReqE /\ IsComposite /\ IsParentReq(E, C) /\ E.verb = "update" /\ Accepted(E) /\ E.post.live)
+  => \/ [NoStatus(E.post) EXCEPT !.fins = <<>>, !.gen = 0] = [NoStatus(E.pre) EXCEPT !.fins = <<>>, !.gen = 0]
+     \/ Report("C11", "C11_RestUntouched", <<"main-resource update changed more than finalizers", Key(E)>>)
+C11_SkipEqual ==
+  (ReqE /\ IsComposite /\ IsParentReq(E, C) /\ E.verb = "updateStatus" /\ C.lastParentGet.live)
+  => \/ E.body.status # C.lastParentGet.status
+     \/ Report("C11", "C11_SkipEqual", <<"status write although equal", Key(E)>>)
+C11_RetryFresh ==
+  (ReqE /\ IsComposite /\ IsParentReq(E, C) /\ E.verb = "updateStatus")
+  => (~C.needFreshGet \/ Report("C11", "C11_RetryFresh", <<"retried a conflicted status write without a fresh read", Key(E)>>))
+C11_UidGuard ==
+  (ReqE /\ IsParentReq(E, C) /\ E.verb \in {"updateStatus", "update"} /\ Accepted(E) /\ E.post # E.pre)
+  => (E.pre.uid = C.parent.uid \/ Report("C11", "C11_UidGuard", <<"write to a same-named parent with another uid", E.pre.uid, C.parent.uid>>))
+\* the status ends up written whenever the sync got as far as reconciling children -- also
+\* when reconciling some children failed -- unless the parent is gone/replaced or the write
+\* itself met a fault or a conflict (tolerated, C12)
+C11_Written ==
+  (IsEv("SyncEnd") /\ IsComposite /\ E.a \in DOMAIN ctx /\ ctx[E.a].active /\ Reached(ctx[E.a]) /\ ~ctx[E.a].claimFail)
+  => LET c == ctx[E.a]  live == Lookup(store, ParentKeyOf(c)) IN
+     \/ ~live.live \/ live.uid # c.parent.uid
+     \/ c.statusConflict \/ c.parentGone
+     \/ \E i \in DOMAIN c.failedReqs : c.failedReqs[i][2] = c.parent.kind
+     \/ StatusEq(live.status, ExpStatus(c))
+     \/ Report("C11", IF c.childFault THEN "C11_EvenIfChildrenFail" ELSE "C11_Written",
+               <<"status", live.status, "expected", ExpStatus(c), "failed", c.failedReqs>>)
+
+\* =======================================================================================
+\* C12 -- failures retried, benign races tolerated, one bad child blocks nothing
+\* =======================================================================================
+Requeued(e) == \E i \in DOMAIN e.queue : e.queue[i].op = "AddRateLimited"
+AfterOf(e)  == { e.queue[i].d : i \in { j \in DOMAIN e.queue : e.queue[j].op = "AddAfter" } }
+C12_NoPanic ==
+  IsEv("SyncEnd") => (E.result # "panic" \/ Report("C12", "C12_NoPanic", <<E.msg>>))
+C12_ErrorRequeues ==
+  (IsEv("SyncEnd") /\ E.a \in DOMAIN ctx /\ ctx[E.a].active /\ E.result # "panic" /\ (ctx[E.a].nonBenign \/ (ctx[E.a].hookFail /\ ~ctx[E.a].hook429)))
+  => \/ (E.result = "error" /\ Requeued(E))
+     \/ Report("C12", "C12_ErrorRequeues", <<"failure swallowed", ctx[E.a].failedReqs, "hookCode", ctx[E.a].hookCode, "result", E.result, E.queue>>)
+C12_429After ==
+  (IsEv("SyncEnd") /\ IsComposite /\ E.a \in DOMAIN ctx /\ ctx[E.a].active /\ ctx[E.a].hook429 /\ ~ctx[E.a].nonBenign /\ E.result # "panic")
+  => \/ (E.result = "ok" /\ ~Requeued(E) /\ 7000 \in AfterOf(E))
+     \/ Report("C12", "C12_429After", <<E.result, E.queue>>)
+\* a failure on one child does not stop the other children nor the status write
+C12_OthersProceed ==
+  (IsEv("SyncEnd") /\ E.a \in DOMAIN ctx /\ ctx[E.a].active /\ ManageRan(ctx[E.a]) /\ ctx[E.a].childFault /\ ~AnyRolling
+     /\ ~("apply" \in DOMAIN cfg /\ cfg.apply = "ssa") /\ E.result # "panic")
+  => LET c == ctx[E.a] IN
+     /\ \A k \in OwnedObs(c) : (k \notin DesiredKeys(c) /\ ~c.obs[k].deleting)
+            => (Issued(c, "delete", k) \/ Report("C12", "C12_OthersProceed", <<"delete skipped after another child failed", k>>))
+     /\ \A k \in DesiredKeys(c) : (k \notin OwnedObs(c))
+            => (Issued(c, "create", k) \/ Report("C12", "C12_OthersProceed", <<"create skipped after another child failed", k>>))
+     /\ (IsComposite /\ Lookup(store, ParentKeyOf(c)).live /\ Lookup(store, ParentKeyOf(c)).uid = c.parent.uid
+           /\ ~StatusEq(Lookup(store, ParentKeyOf(c)).status, ExpStatus(c)))
+            => (c.statusPuts > 0 \/ c.statusConflict \/ Report("C12", "C12_OthersProceed", <<"status write skipped after a child failed">>))
+\* once faults stop the cluster converges to the fault-free state (uses the C01 fixpoint oracle)
+C12_Recovers ==
+  (IsEv("End") /\ HasExpect("fix") /\ HasExpect("faulty"))
+  => \/ (AtFix(store) /\ \A a \in DOMAIN ctx : ctx[a].result = "ok")
+     \/ Report("C12", "C12_Recovers", <<"owned", OwnedNow(store), "fix", FixKeys, [a \in DOMAIN ctx |-> ctx[a].result]>>)
+
+\* =======================================================================================
+\* C13 -- no hook response can crash metacontroller or cause writes
+\* =======================================================================================
+C13_NoPanic ==
+  IsEv("SyncEnd") => (E.result # "panic" \/ Report("C13", "C13_NoPanic", <<E.msg>>))
+\* the sync failed although no request failed and the hook answered 200: the response was
+\* rejected -- then nothing may have been written on the strength of it
+C13_RejectedNoWrites ==
+  (IsEv("SyncEnd") /\ E.a \in DOMAIN ctx /\ ctx[E.a].active /\ E.result = "error" /\ ctx[E.a].failedReqs = <<>>
+     /\ ctx[E.a].nHooks > 0 /\ ~ctx[E.a].hookFail /\ ctx[E.a].faults = 0)
+  => (ctx[E.a].childWritesAfterHook = 0 \/ Report("C13", "C13_RejectedNoWrites", <<"child writes", ctx[E.a].childWritesAfterHook, E.msg>>))
+C13_HookErrNoWrites ==
+  (ReqE /\ IsChildReq(E) /\ E.verb \in WriteVerbs /\ C.nHooks > 0 /\ C.hookFail /\ ~IsAdoption(E, C) /\ ~IsRelease(E, C))
+  => Report("C13", "C13_RejectedNoWrites", <<"child write after a failed hook call", E.verb, Key(E)>>)
+
+\* =======================================================================================
+\* C16 -- a decorator changes only labels, annotations, status and finalizer of its target
+\* =======================================================================================
+\* judged against the (single) hook answer of the sync; keys named in the answer: null => removed
+NamedOK(pre, post, named) ==
+  \A k \in (DOMAIN pre \cup DOMAIN post) :
+     \/ (k \in DOMAIN pre /\ k \in DOMAIN post /\ pre[k] = post[k])
+     \/ (k \in DOMAIN named /\ ((named[k] = "null" /\ k \notin DOMAIN post) \/ (k \in DOMAIN post /\ named[k] = "s:" \o post[k])))
+DecTargetWrite == ReqE /\ IsDecorator /\ IsParentReq(E, C) /\ E.verb \in {"update", "updateStatus", "patch", "jsonpatch", "apply"} /\ Accepted(E) /\ E.post.live
+C16_OnlyNamedKeys ==
+  DecTargetWrite
+  => \/ (NamedOK(E.pre.labels, E.post.labels, IF C.nHooks > 0 THEN C.resp.labels ELSE <<>>)
+         /\ NamedOK(E.pre.ann, E.post.ann, IF C.nHooks > 0 THEN C.resp.annotations ELSE <<>>))
+     \/ Report("C16", "C16_OnlyNamedKeys", <<"labels", E.pre.labels, E.post.labels, "ann", E.pre.ann, E.post.ann,
+                                             "named", IF C.nHooks > 0 THEN <<C.resp.labels, C.resp.annotations>> ELSE <<>>>>)
+C16_StatusRule ==
+  (DecTargetWrite /\ E.post.status # E.pre.status)
+  => \/ (C.nHooks > 0 /\ C.hookOK /\ C.resp.hasStatus /\ E.post.status = C.resp.status)
+     \/ Report("C16", "C16_StatusRule", <<"status", E.pre.status, E.post.status, "answer", IF C.nHooks > 0 THEN C.resp.status ELSE <<>>>>)
+C16_FinalizerOnly ==
+  DecTargetWrite
+  => \/ (Range(E.post.fins) \ {C.fin}) = (Range(E.pre.fins) \ {C.fin})
+     \/ Report("C16", "C16_FinalizerOnly", <<E.pre.fins, E.post.fins>>)
+C16_SpecUntouched ==
+  DecTargetWrite
+  => \/ [E.post EXCEPT !.rv = 0, !.labels = <<>>, !.ann = <<>>, !.status = <<>>, !.hasStatus = FALSE, !.fins = <<>>]
+          = [E.pre EXCEPT !.rv = 0, !.labels = <<>>, !.ann = <<>>, !.status = <<>>, !.hasStatus = FALSE, !.fins = <<>>]
+     \/ Report("C16", "C16_SpecUntouched", <<"fields", E.pre.fields, E.post.fields, "gen", E.pre.gen, E.post.gen, "owners", E.pre.owners, E.post.owners>>)
+\* no request is sent when nothing would change: a sync whose target writes all changed nothing
+C16_NoOpNoRequest ==
+  (IsEv("SyncEnd") /\ IsDecorator /\ E.a \in DOMAIN ctx /\ ctx[E.a].active /\ ctx[E.a].statusPuts > 0 /\ ~ctx[E.a].parentChanged
+     /\ ctx[E.a].failedReqs = <<>> /\ ctx[E.a].fresh)
+  => Report("C16", "C16_NoOpNoRequest", <<"target written", ctx[E.a].statusPuts, "times without any change">>)
+\* a sync acts only on objects that satisfy both selectors or still carry the finalizer
+C16_Selected ==
+  ((HookE \/ (ReqE /\ E.verb # "get")) /\ IsDecorator)
+  => \/ CtlMatches(C.parent) \/ HasFin(C.parent, C)
+     \/ Report("C16", "C16_Selected", <<"acted on an unselected object", C.parent.labels, C.parent.ann>>)
+
+\* =======================================================================================
+\* C17(a) -- shared caches stay read-only; the hook is sent what the API server delivered
 \* =======================================================================================
 C17_CacheFrozen ==
   ((IsEv("SyncEnd") \/ IsEv("Deliver")) /\ E.fpDiff # <<>>) => Report("C17", "C17_CacheFrozen", E.fpDiff)
+C17_HookSeesDelivered ==
+  HookE => /\ \A g \in DOMAIN E.req.children : \A n \in DOMAIN E.req.children[g] :
+                LET o == E.req.children[g][n] IN
+                \/ Lookup(C.obs, ObjKey(o)) = o
+                \/ Report("C17", "C17_HookSeesDelivered", <<"child in request differs from the cached object", ObjKey(o)>>)
+           /\ \/ E.req.parent = Cur(C) \/ AnyRolling
+              \/ Report("C17", "C17_HookSeesDelivered", <<"parent in request differs from the cached/updated parent", E.req.parent.rv, Cur(C).rv>>)
 
 \* =======================================================================================
 \* state update
@@ -209,59 +520,96 @@ RespBad(c, resp) == ~IsDecorator /\ ~GenSel /\ c.selOK
 
 Put(e) == IF e.post = e.pre THEN store ELSE (Key(e) :> e.post) @@ store
 
+\* failures that are not one of the documented benign races
+NonBenign(e, c) ==
+  /\ ~Accepted(e)
+  /\ \/ e.code \in {0, 410, 422, 500, 503}
+     \/ (e.code = 409 /\ e.verb = "delete")
+
 CtxAfterReq(c, e) ==
-  LET isParentGet == e.verb = "get" /\ e.kind = ParentKind /\ e.name = c.parent.name /\ e.ns = c.parent.ns
+  LET isParentGet == e.verb = "get" /\ IsParentReq(e, c)
       childMut    == IsChildReq(e) /\ e.verb \in WriteVerbs /\ ~IsAdoption(e, c) /\ ~IsRelease(e, c)
       revMut      == IsRevReq(e) /\ e.verb \in WriteVerbs /\ ~IsAdoption(e, c) /\ ~IsRelease(e, c)
+      parentPut   == IsParentReq(e, c) /\ e.verb \in {"update", "updateStatus"}
   IN [c EXCEPT
         !.rechecked = @ \/ (isParentGet /\ Accepted(e) /\ e.got.uid = c.parent.uid /\ ~e.got.deleting),
         !.seen = IF e.verb = "get" /\ Accepted(e) THEN (Key(e) :> e.got) @@ @
                  ELSE IF e.verb \in {"update", "updateStatus", "create", "apply", "jsonpatch"} /\ Accepted(e) /\ e.post.live
                       THEN (Key(e) :> e.post) @@ @      \* the response of an accepted write is an observation too
                  ELSE @,
-        !.lastParentGet = IF isParentGet /\ Accepted(e) THEN e.got ELSE @,
+        !.lastParentGet = IF isParentGet /\ Accepted(e) THEN e.got ELSE IF isParentGet THEN AbsentObj ELSE @,
+        !.cur = IF parentPut /\ e.verb = "update" /\ Accepted(e) /\ c.nHooks = 0 /\ e.post.live THEN e.post ELSE @,
+        !.adopted = IF Accepted(e) /\ IsOwnedKind(e) /\ IsAdoption(e, c) THEN @ \cup {Key(e)} ELSE @,
+        !.released = IF Accepted(e) /\ IsOwnedKind(e) /\ IsRelease(e, c) THEN @ \cup {Key(e)} ELSE @,
+        !.issued = IF childMut /\ c.nHooks > 0 THEN @ \cup {<<e.verb, Key(e)>>} ELSE @,
         !.childWrites = IF childMut THEN @ + 1 ELSE @,
+        !.childReqs = IF IsChildReq(e) /\ e.verb \in WriteVerbs THEN @ + 1 ELSE @,
         !.childWritesAfterHook = IF childMut /\ c.nHooks > 0 THEN @ + 1 ELSE @,
+        !.revWrites = IF revMut THEN @ + 1 ELSE @,
         !.revWritesAfterChild = IF revMut /\ c.childWrites > 0 THEN @ + 1 ELSE @,
         !.revFailed = @ \/ (revMut /\ ~Accepted(e)),
         !.childAfterRevFail = IF childMut /\ c.revFailed THEN @ + 1 ELSE @,
         !.faults = IF e.injected # -1 THEN @ + 1 ELSE @,
         !.conflictSeen = @ \/ (e.code = 409),
-        !.statusPuts = IF e.kind = ParentKind /\ e.verb \in {"update", "updateStatus"} THEN @ + 1 ELSE @,
+        !.nonBenign = @ \/ NonBenign(e, c),
+        !.childFault = @ \/ (childMut /\ ~Accepted(e) /\ c.nHooks > 0),
+        !.claimFail = @ \/ (c.nHooks = 0 /\ ~Accepted(e) /\ e.code \notin {404}),
+        !.statusConflict = @ \/ (parentPut /\ e.code = 409),
+        !.parentGone = @ \/ (IsParentReq(e, c) /\ (e.code = 404 \/ (Accepted(e) /\ e.verb = "get" /\ e.got.uid # c.parent.uid))),
+        !.needFreshGet = IF parentPut /\ e.verb = "updateStatus" /\ e.code = 409 THEN TRUE
+                         ELSE IF isParentGet THEN FALSE ELSE @,
+        !.statusPuts = IF parentPut /\ c.nHooks > 0 THEN @ + 1 ELSE @,
+        !.parentChanged = @ \/ (parentPut /\ Accepted(e) /\ e.post # e.pre),
+        !.wrote = @ \/ (e.verb # "get" /\ e.post # e.pre),
         !.failedReqs = IF ~Accepted(e) THEN Append(@, <<e.verb, e.kind, e.name, e.code>>) ELSE @ ]
 
 CtxAfterHook(c, e) ==
-  IF e.hook = "customize" THEN c
+  IF e.hook = "customize" THEN [c EXCEPT !.hookFail = @ \/ e.code # 200]
   ELSE [c EXCEPT !.nHooks = @ + 1,
                  !.resp = IF e.code = 200 THEN e.resp ELSE @,
+                 !.hookReq = e.req,
                  !.hookParent = e.req.parent,
                  !.finalizing = e.req.finalizing,
                  !.hookCode = e.code,
-                 !.hookFail = @ \/ e.code # 200,
+                 !.hookOK = (e.code = 200 /\ e.resp.wellFormed),
+                 !.hookFail = @ \/ (e.code # 200),
+                 !.hook429 = @ \/ (e.code = 429),
+                 !.allFinalized = @ /\ e.code = 200 /\ e.resp.finalized,
                  !.gateBad = @ \/ (e.code = 200 /\ RespBad(c, e.resp))]
 
+CacheFresh(e) == /\ \A i \in DOMAIN e.cache : Lookup(store, ObjKey(e.cache[i])) = e.cache[i]
+                 /\ \A k \in DOMAIN store : (store[k].live /\ store[k].kind \in (ChildKinds \cup {ParentKind}))
+                                               => \E i \in DOMAIN e.cache : ObjKey(e.cache[i]) = k
 NewCtx(e) ==
   [NoCtx EXCEPT !.active = TRUE, !.sid = e.sid, !.key = e.key, !.parent = e.parent,
                 !.sel = IF "sel" \in DOMAIN e THEN e.sel ELSE EmptySel,
                 !.selOK = IF "selOK" \in DOMAIN e THEN e.selOK ELSE FALSE,
                 !.marker = IF "marker" \in DOMAIN e THEN e.marker ELSE "",
-                !.obs = StoreOfK(e.cache)]
+                !.fin = IF "fin" \in DOMAIN e THEN e.fin ELSE "",
+                !.obs = StoreOfK(e.cache),
+                !.fresh = CacheFresh(e),
+                !.atFix = IF HasExpect("fix") THEN AtFix(store) ELSE FALSE,
+                !.prevQuiet = IF e.a \in DOMAIN ctx THEN (ctx[e.a].result = "ok" /\ ~ctx[e.a].wrote /\ ctx[e.a].childReqs = 0) ELSE FALSE]
 
-Init == l = 1 /\ store = <<>> /\ cfg = [children |-> <<>>] /\ ctx = <<>>
+Init == l = 1 /\ store = <<>> /\ cfg = [children |-> <<>>] /\ expect = <<>> /\ ctx = <<>>
+
+\* an environment step ends every "nothing changed" streak
+EnvResets == [a \in DOMAIN ctx |-> [ctx[a] EXCEPT !.result = "env", !.wrote = TRUE]]
 
 Next ==
   /\ HasE
   /\ l' = l + 1
-  /\ CASE E.ev = "Reset"     -> store' = StoreOfK(E.objs) /\ cfg' = E.cfg /\ ctx' = <<>>
-       [] E.ev = "Env"       -> store' = Put(E) /\ UNCHANGED <<cfg, ctx>>
-       [] E.ev = "Req"       -> /\ store' = Put(E) /\ UNCHANGED cfg
+  /\ CASE E.ev = "Reset"     -> /\ store' = StoreOfK(E.objs) /\ cfg' = E.cfg /\ ctx' = <<>>
+                                /\ expect' = IF "expect" \in DOMAIN E THEN E.expect ELSE <<>>
+       [] E.ev = "Env"       -> store' = Put(E) /\ ctx' = EnvResets /\ UNCHANGED <<cfg, expect>>
+       [] E.ev = "Req"       -> /\ store' = Put(E) /\ UNCHANGED <<cfg, expect>>
                                 /\ ctx' = IF InSync(E) THEN [ctx EXCEPT ![E.a] = CtxAfterReq(@, E)] ELSE ctx
-       [] E.ev = "Hook"      -> /\ UNCHANGED <<store, cfg>>
+       [] E.ev = "Hook"      -> /\ UNCHANGED <<store, cfg, expect>>
                                 /\ ctx' = IF InSync(E) THEN [ctx EXCEPT ![E.a] = CtxAfterHook(@, E)] ELSE ctx
-       [] E.ev = "SyncStart" -> UNCHANGED <<store, cfg>> /\ ctx' = (E.a :> NewCtx(E)) @@ ctx
-       [] E.ev = "SyncEnd"   -> /\ UNCHANGED <<store, cfg>>
-                                /\ ctx' = IF E.a \in DOMAIN ctx THEN [ctx EXCEPT ![E.a].active = FALSE] ELSE ctx
-       [] OTHER              -> UNCHANGED <<store, cfg, ctx>>
+       [] E.ev = "SyncStart" -> UNCHANGED <<store, cfg, expect>> /\ ctx' = (E.a :> NewCtx(E)) @@ ctx
+       [] E.ev = "SyncEnd"   -> /\ UNCHANGED <<store, cfg, expect>>
+                                /\ ctx' = IF E.a \in DOMAIN ctx THEN [ctx EXCEPT ![E.a].active = FALSE, ![E.a].result = E.result] ELSE ctx
+       [] OTHER              -> UNCHANGED <<store, cfg, expect, ctx>>
 
 Spec == Init /\ [][Next]_vars
 
